@@ -368,6 +368,14 @@ pub fn build<K: Kind>(case: &Case, t: &Tr, alt: bool) -> K {
     }
 }
 
+fn body_clauses(case: &Case, x: &Tr, alt: bool) -> Vec<Vec<Goal<TU, TE>>> {
+    match x {
+        Tr::Conj(v) if alt => v.iter().map(|g| vec![build::<Goal<TU, TE>>(case, g, alt)]).collect(),
+        Tr::Conj(v) => vec![v.iter().map(|g| build::<Goal<TU, TE>>(case, g, alt)).collect()],
+        other => vec![vec![build::<Goal<TU, TE>>(case, other, alt)]],
+    }
+}
+
 fn build_bfs_only(case: &Case, t: &Tr, alt: bool) -> Goal<TU, TE> {
     type Gl = Goal<TU, TE>;
     match t {
@@ -389,14 +397,16 @@ fn build_bfs_only(case: &Case, t: &Tr, alt: bool) -> Goal<TU, TE> {
                 Condu::from_conjunctions(&refs)
             }
         }
+        // a conjunction body is handed over the way the surface forms do: `op { [a, b] }` is one
+        // clause of two goals, `op { a, b }` two clauses of one goal each (the alternative build)
         Tr::Onceo(x) => {
-            let arr = [build::<Gl>(case, x, alt)];
-            let refs: [&[Gl]; 1] = [&arr];
+            let clauses = body_clauses(case, x, alt);
+            let refs: Vec<&[Gl]> = clauses.iter().map(|c| c.as_slice()).collect();
             proto_vulcan::operator::onceo(OperatorParam::new(&refs))
         }
         Tr::Anyo(x) => {
-            let arr = [build::<Gl>(case, x, alt)];
-            let refs: [&[Gl]; 1] = [&arr];
+            let clauses = body_clauses(case, x, alt);
+            let refs: Vec<&[Gl]> = clauses.iter().map(|c| c.as_slice()).collect();
             proto_vulcan::operator::anyo(OperatorParam::new(&refs))
         }
         _ => unreachable!(),
